@@ -465,6 +465,42 @@ fn random(a: &Args) {
             }
         }
     }
+    // deep nesting (the indentation of every level must be written in full): collections with a second entry and a
+    // multi-line string at the bottom, 1..72 levels of sequences / mappings / both
+    for depth in [1usize, 8, 15, 16, 17, 18, 24, 31, 32, 33, 48, 64, 65, 72] {
+        for kind in 0..3 {
+            for leaf in [Yaml::Sequence(vec![Yaml::Value(Scalar::Integer(1)), Yaml::Value(Scalar::Integer(2))]), map_of(vec![(st("a"), st("x\ny")), (st("b"), st("z"))]), st("line1\nline2\n")] {
+                let mut y = leaf.clone();
+                for lvl in 0..depth {
+                    y = match (kind, lvl % 2) {
+                        (0, _) | (2, 0) => Yaml::Sequence(vec![y, st("t")]),
+                        _ => map_of(vec![(st("k"), y), (st("z"), st("w"))]),
+                    };
+                }
+                for (c, m) in ALL_SETTINGS {
+                    s.put(run_case(&y, c, m), "deep", "tree", &json!({"t": "none", "depth": depth}), false);
+                    cases += 1;
+                }
+            }
+        }
+    }
+    // floating-point values of every magnitude and digit count (the emitted text must read back as the same value)
+    for i in 0..3000 {
+        let f = match i % 6 {
+            0 => rng.below(1_000_000_000) as f64 / 1000.0 + rng.below(1_000_000) as f64 * 1e-9,
+            1 => f64::from_bits(rng.next()),
+            2 => (rng.below(1 << 30) as f64) * (rng.below(1 << 30) as f64) / 3.0,
+            3 => 1.0 / (1.0 + rng.below(1_000_000) as f64),
+            4 => (rng.next() >> 11) as f64 / (1u64 << 53) as f64 * 1e6,
+            _ => (rng.below(1_000_000) as f64 + 0.5) * 10f64.powi(rng.below(40) as i32 - 20),
+        };
+        if !f.is_finite() {
+            continue;
+        }
+        let y = Yaml::Sequence(vec![Yaml::Value(Scalar::FloatingPoint(f.into())), map_of(vec![(Yaml::Value(Scalar::FloatingPoint((-f).into())), st("v"))])]);
+        s.put(run_case(&y, true, false), "float", "tree", &json!({"t": "none"}), false);
+        cases += 1;
+    }
     for _ in 0..ntrees {
         let y = rand_tree(&mut rng, 0, &pool);
         for (c, m) in ALL_SETTINGS {
